@@ -225,6 +225,11 @@ def connectOpen (host : Bytes) (port : Nat) : M Unit := do
   emit (.ctlConnect host port)
   forObservers (fun o => .obsConnected o host port)
 
+/-- `client::connect` on a client that is still connected: the open control connection is closed first -/
+def connectDrop : M Unit := do
+  emit .ctlClose
+  modifyW fun w => { w with connected := false }
+
 /-- the completed listing and its announcement -/
 def listingNotify (t : Bytes) : M Unit := do
   emit (.listing t)
@@ -272,6 +277,7 @@ structure AtomsA (I : World → Prop) : Prop where
   send : ∀ c, Keeps I (ctlSend c)
   recv : Keeps I ctlRecv
   close : Keeps I ctlClose
+  drop : Keeps I connectDrop
   copen : ∀ h p, Keeps I (connectOpen h p)
 
 /-- ... for what follows the set-up of the data connection in a transfer -/
@@ -303,6 +309,7 @@ structure Fine (I : World → Prop) : Prop where
   emit : ∀ e, isDesc e = false → Keeps I (emit e)
   obs : ∀ f : Nat → Ev, (∀ o, isDesc (f o) = false) → Keeps I (forObservers f)
   close : Keeps I ctlClose
+  drop : Keeps I connectDrop
   copen : ∀ h p, Keeps I (connectOpen h p)
 
 section fine
@@ -334,17 +341,23 @@ theorem Fine.atomsA (F : Fine I) : AtomsA I where
   send := F.send
   recv := keeps_ctlRecv (F.emit _ rfl) F.mod F.recvTail
   close := F.close
+  drop := F.drop
   copen := F.copen
 
 theorem Fine.of_iff {J : World → Prop} (F : Fine I) (h : ∀ w, I w ↔ J w) : Fine J := by
   have hk : ∀ {α} {m : M α}, Keeps I m → Keeps J m := fun hm => ⟨fun w hw => (h _).mp (hm.h w ((h w).mpr hw))⟩
-  exact ⟨fun f hf => hk (F.mod f hf), fun e he => hk (F.emit e he), fun f hf => hk (F.obs f hf), hk F.close,
+  exact ⟨fun f hf => hk (F.mod f hf), fun e he => hk (F.emit e he), fun f hf => hk (F.obs f hf), hk F.close, hk F.drop,
     fun a p => hk (F.copen a p)⟩
 
 theorem keeps_close_of (hmod : ∀ f : World → World, (∀ w, FrameC w (f w)) → Keeps I (modifyW f))
     (hemit : ∀ e, isDesc e = false → Keeps I (emit e)) : Keeps I ctlClose := by
   unfold ctlClose
   exact keeps_bind (hemit _ rfl) fun _ => keeps_bind (hemit _ rfl) fun _ => hmod _ fun _ => ⟨rfl, rfl, rfl⟩
+
+theorem keeps_drop_of (hmod : ∀ f : World → World, (∀ w, FrameC w (f w)) → Keeps I (modifyW f))
+    (hemit : ∀ e, isDesc e = false → Keeps I (emit e)) : Keeps I connectDrop := by
+  unfold connectDrop
+  exact keeps_bind (hemit _ rfl) fun _ => hmod _ fun _ => ⟨rfl, rfl, rfl⟩
 
 theorem keeps_copen_of (hmod : ∀ f : World → World, (∀ w, FrameC w (f w)) → Keeps I (modifyW f))
     (hemit : ∀ e, isDesc e = false → Keeps I (emit e))
@@ -493,6 +506,13 @@ theorem keeps_connectOpen_bind {β} (A : AtomsA I) (h : Bytes) (p : Nat) (k : Un
   unfold connectOpen at this
   simpa only [bindM_assoc] using this
 macro_rules | `(tactic| keeps_lemma) => `(tactic| refine keeps_connectOpen_bind ‹_› _ _ _ ?_)
+
+theorem keeps_connectDrop_bind {β} (A : AtomsA I) (k : Unit → M β) (hk : ∀ u, Keeps I (k u)) :
+    Keeps I (emit .ctlClose >>= fun _ => modifyW (fun w => { w with connected := false }) >>= k) := by
+  have := keeps_bind A.drop hk
+  unfold connectDrop at this
+  simpa only [bindM_assoc] using this
+macro_rules | `(tactic| keeps_lemma) => `(tactic| refine keeps_connectDrop_bind ‹_› _ ?_)
 
 theorem keeps_connect (A : AtomsA I) (h : Bytes) (p : Nat) (cred : Option (Bytes × Bytes)) : Keeps I (connect h p cred) := by
   unfold connect; keeps_walk
